@@ -56,7 +56,7 @@ def run(seed_dir, ids):
     finally:
         sh('git -C /repo checkout -- .')
         shutil.rmtree(os.path.join(VERIF, 'replays'), ignore_errors=True)
-        sh('git -C %s checkout -- evidence' % VERIF)
+        sh('git -C %s checkout -- evidence lean/TJ/Gen' % VERIF)
     json.dump(meta, open(meta_p, 'w'), indent=1)
 
 def store(out, wt, pid, k):
